@@ -31,7 +31,7 @@ ASSUMPTIONS = [
     "absolute-value sum",
     "ModEv=EXA only; the alpha_s clause is applied only where the reference coupling stays below 0.5 (perturbative domain)",
 ]
-BUDGET = {"quick": {"examples": 1600, "wall": 300}, "thorough": {"examples": 50000, "wall": 3300}}
+BUDGET = {"quick": {"examples": 1600, "wall": 300}, "thorough": {"examples": 50000, "wall": 2400}}
 MANDATORY = {
     t: ["nontrivial", "source:real", "source:synthetic", "clause:formula", "clause:linear", "clause:absent", "clause:theory",
         "theory:FFNS", "theory:ZM-VFNS", "theory:crossing", "mixed-key", "xs"]
@@ -113,6 +113,13 @@ def cases(draw, tier="quick"):
         base["numpy_kin"] = False
     else:
         base = draw(c15.synthetic())
+        # C15's synthetic outputs carry 1e+-300 entries for the bitwise round trip; contracted with a PDF they overflow to
+        # inf-inf=nan on both sides of any formula (false alarm at seeds 5, 6): keep magnitudes where products stay finite
+        for pts in base["results"].values():
+            for pt in pts or []:
+                for o in pt["orders"]:
+                    o["values"] = [[(math.copysign(1e3, v) if abs(v) > 1e100 else v) for v in row] for row in o["values"]]
+                    o["errors"] = [[(1e-3 if abs(v) > 1e100 else v) for v in row] for row in o["errors"]]
     base["pdf"] = pdfs.smooth_params(draw, st)
     base["pdf2"] = pdfs.smooth_params(draw, st)
     base["lin"] = [round(draw(st.floats(-2, 2)), 3), round(draw(st.floats(-2, 2)), 3)]
@@ -184,6 +191,13 @@ def check_case(case):
     run._silence()
     out = c15.build_output(case)
     v.label(f"source:{case['source']}")
+    for lst in out.values():
+        if isinstance(lst, list):
+            for r in lst:
+                if hasattr(r, "orders") and any(run.maxabs(val[0]) > 1e100 for val in r.orders.values()):
+                    v.rejected = True  # outside the domain where products with a PDF stay finite
+                    v.label("overflow-domain")
+                    return v
     xir, xif = case["xiR"], case["xiF"]
     a0, a1 = case["as_par"]
     e0, e1 = case["aem_par"]
